@@ -166,6 +166,41 @@ def flag_before_tracking(run, model, rule='ORDER.flag-before-track'):
         run.inst(rule, pe, 'a tracked source has its run flag up', ok, '' if ok else 'a source is tracked on a path on which its run flag was never raised', node=a.ast, obligation=True)
 
 
+def timer_retest(run, g, t, posts, rule='SCAN.clear-matched'):
+    # the re-test after the sleep exists and dominates the posts
+    retests = [x for x in g.nodes if x.kind == 'test' and x.label != 'loop' and 'is_set' in norm(x.ast)]
+    sleeps = [n for n in g.nodes if n.kind not in ('entry', 'exit', 'xexit', 'def') and any(norm(c.func).split('.')[-1] in ('sleep', 'wait') for c in n.calls())]
+    run.floor('timer sleep sites', len(sleeps), 1)
+
+    def reaches_avoiding(a, b, avoid):
+        seen, todo = {a}, [a]
+        while todo:
+            n = todo.pop()
+            for m, _l in g.succ[n]:
+                if m is b:
+                    return True
+                if m in seen or m in avoid:
+                    continue
+                seen.add(m)
+                todo.append(m)
+        return False
+    for p in posts:
+        # a re-test whose "still set" edge guards the post, and that lies on every way from the sleep to the post
+        good = []
+        for x in retests:
+            inner_, pol_ = strip_not(x.ast)
+            # `X.is_set()` / `X.is_set() is True` / `X.is_set() is not True`
+            set_label = 'true' if pol_ else 'false'
+            if isinstance(inner_, ast.Compare) and len(inner_.ops) == 1 and isinstance(inner_.comparators[0], ast.Constant) and isinstance(inner_.comparators[0].value, bool):
+                same = isinstance(inner_.ops[0], (ast.Is, ast.Eq)) == bool(inner_.comparators[0].value)
+                set_label = ('true' if same else 'false') if pol_ else ('false' if same else 'true')
+            if guarded_by_edge(g, p, x, set_label) and all(not reaches_avoiding(s_, p, {x}) for s_ in sleeps):
+                good.append(x)
+        ok = bool(good)
+        run.inst(rule, t, 'timer re-tests its run flag after sleeping, before posting', ok,
+                 '' if ok else 'the timer posts after its sleep without re-testing the run flag: a source cancelled while sleeping still fires', node=p.ast, obligation=True)
+
+
 def check(run, model, tier):
     run.explanation = ('Operator census (identity vs equality) and loop-shape/path-count analysis of ActiveObject.cancel_event/cancel_events, '
                        'plus a lockset look at the timer thread\'s test-then-post. Matching by equality and inspecting each tracked record '
@@ -302,10 +337,5 @@ def check(run, model, tier):
                                     'a cancel that clears the flag between the test and the post returns, and one more event is posted afterwards'),
                  obligation=True)
         break
-    # the re-test after the sleep exists and dominates the posts
-    retests = [x for x in g.nodes if x.kind == 'test' and x.label != 'loop' and 'is_set' in norm(x.ast)]
-    for p in posts:
-        ok = any(g.dominates(x, p) for x in retests)
-        run.inst('SCAN.clear-matched', t, 'timer re-tests its run flag after sleeping, before posting', ok,
-                 '' if ok else 'the timer posts after its sleep without re-testing the run flag: a source cancelled while sleeping still fires', node=p.ast, obligation=True)
+    timer_retest(run, g, t, posts)
     run.assume('threading.Event.clear/is_set are atomic; the tracking deque is only used from the caller\'s and the object\'s threads')
